@@ -38,6 +38,9 @@ def do_task(task):
     return out
 
 
+
+
+
 def _note_compile(out, tag, r):
     ents = None
     if r.get("ok"):
@@ -221,4 +224,169 @@ def task_kernel2(task, rec, out):
     out["ok_builds"] = 1
 
 
-KINDS = {"kernel": task_kernel, "kernel2": task_kernel2, "import": task_import, "fresh": task_fresh, "stateless": task_stateless, "history": task_history, "loop": task_loop, "equiv": task_equiv}
+def task_cli(task, rec, out):
+    from . import c07
+
+    c07.task_cli(task, rec, out)
+
+
+KINDS = {"cli": task_cli, "kernel": task_kernel, "kernel2": task_kernel2, "import": task_import, "fresh": task_fresh, "stateless": task_stateless, "history": task_history, "loop": task_loop, "equiv": task_equiv}
+
+
+# ======================================================================================
+#  E3: layout outcomes (C08, C09, C18)
+# ======================================================================================
+
+
+def _overlap_query(rec, key, cap):
+    """for EVERY model of the captured CP-SAT proto: no two entities' collision boxes (game data) intersect"""
+    import z3
+
+    from . import geom
+    from .cpsat2smt import Model
+
+    pd, ents = cap["proto"], cap.get("entities") or {}
+    m = Model(pd, use=("domain", "interval", "no_overlap_2d"))
+    if m.unknown_kinds:
+        rec.inconc(key, f"constraint kinds not translated: {sorted(m.unknown_kinds)}")
+    S = 200  # fixed-point scale for half tiles and collision boxes
+    boxes = []
+    for eid, info in ents.items():
+        x, y = m.byname.get(f"x_{eid}"), m.byname.get(f"y_{eid}")
+        if x is None or y is None:
+            continue
+        w, h = info["footprint"]
+        cb = geom.raw(info["type"]).get("collision_box") or [[-0.4, -0.4], [0.4, 0.4]]
+        hx, hy = (cb[1][0] - cb[0][0]) / 2, (cb[1][1] - cb[0][1]) / 2
+        if (w > h) != (hx > hy) and w != h:
+            hx, hy = hy, hx  # orientation taken from the footprint the engine reserves
+        boxes.append((eid, x * S + int(w * S / 2), y * S + int(h * S / 2), int(round(hx * S)), int(round(hy * S))))
+    pairs = []
+    for i in range(len(boxes)):
+        for j in range(i + 1, len(boxes)):
+            a, b = boxes[i], boxes[j]
+            dx, dy = a[1] - b[1], a[2] - b[2]
+            pairs.append(z3.And(dx < a[3] + b[3], -dx < a[3] + b[3], dy < a[4] + b[4], -dy < a[4] + b[4]))
+    if not pairs:
+        return []
+    r, model, secs = m.solve([z3.Or(*pairs)])
+    rec.count(r, secs)
+    if r == "unknown":
+        rec.inconc(key, "solver timeout/unknown")
+        return []
+    if r == "unsat":
+        return []
+    place = {eid: (model.eval(m.byname[f"x_{eid}"]).as_long(), model.eval(m.byname[f"y_{eid}"]).as_long()) for eid in ents if f"x_{eid}" in m.byname}
+    return [{"key": key, "what": f"the layout model (strategy {cap.get('strategy')}) admits a placement in which two collision boxes intersect, e.g. {dict(list(place.items())[:6])}", "kind": "layout-overlap", "closed": True, "placement": place}]
+
+
+def _fixed_query(key, cap, ref_places):
+    """user-placed entities are singleton-domain variables at exactly the program's tiles (multiset)"""
+    import collections
+
+    ents = cap.get("entities") or {}
+    names = {v["name"]: v["domain"] for v in cap["proto"]["variables"]}
+    got = collections.Counter()
+    bad = []
+    for eid, info in ents.items():
+        if not info.get("user"):
+            continue
+        dx, dy = names.get(f"x_{eid}"), names.get(f"y_{eid}")
+        if dx is None or dy is None or dx[0] != dx[-1] or dy[0] != dy[-1] or len(dx) != 2 or len(dy) != 2:
+            bad.append(f"user entity {eid} is not fixed in the layout model (domains {dx}, {dy})")
+            continue
+        got[(info["type"], dx[0], dy[0])] += 1
+    want = collections.Counter((p, x, y) for (p, x, y, _pr) in ref_places)
+    if want != got:
+        bad.append(f"user entities fixed in the layout model {sorted((got - want).elements())[:4]} vs program {sorted((want - got).elements())[:4]}")
+    return [{"key": key, "what": b, "kind": "layout-fixed", "closed": True} for b in bad]
+
+
+def task_layout(task, rec, out):
+    from . import geom
+    from .bp import Circuit
+
+    stmts = task["stmts"]
+    for build in task["builds"]:
+        for stub_k in task.get("unknown_first", [0]):
+            tag = f"{build['tag']}/unknown{stub_k}"
+            extra = {"capture": stub_k == 0, "stub": {"unknown_first": stub_k} if stub_k else None}
+            r = _compile(stmts, build, "full", extra)
+            _note_compile(out, tag, r)
+            if not r.get("ok"):
+                continue
+            key = f"{task['key']}/{tag}"
+            sess = engine.Session(stmts, r["json"])
+            fs = []
+            for (kind, text) in geom.paste_problems(sess.circ)[:8]:
+                fs.append({"key": f"{key}:{kind}", "what": text, "kind": kind, "closed": True})
+            if task.get("power"):
+                for (kind, text) in geom.power_problems(sess.circ, build.get("poles"))[:8]:
+                    fs.append({"key": f"{key}:{kind}", "what": text, "kind": kind, "closed": True})
+            fs += engine.check_places(sess, rec, key)
+            if task.get("K"):
+                f2, _S = engine.check_history(sess, rec, key, task["K"])
+                fs += f2
+            else:
+                fs += engine.check_stateless(sess, rec, key, task)
+            if stub_k == 0 and task.get("e3", True):
+                _zev, zref = sess.z3_pair()
+                try:
+                    ref_places = zref(None, {"__default0__": True}).places
+                except Exception:  # noqa: BLE001
+                    ref_places = None
+                for ci, cap in enumerate(r.get("protos") or []):
+                    fs += _overlap_query(rec, f"{key}:proto{ci}:overlap", cap)
+                    if ref_places is not None:
+                        fs += _fixed_query(f"{key}:proto{ci}:fixed", cap, ref_places)
+            if stub_k == 0 and task.get("adversarial") and r.get("protos"):
+                fs += _adversarial(task, rec, out, build, key, r["protos"][0], stmts)
+            for f in fs:
+                f["src"] = r["src"]
+                f["build"] = build
+                f.setdefault("stub", {"unknown_first": stub_k})
+            out["findings"] += fs
+
+
+def _adversarial(task, rec, out, build, key, cap, stmts):
+    """z3 chooses, among the models of the captured proto's placement constraints, a placement that puts two
+    directly wired compiler entities (memory/latch internals) more than 9 tiles apart; the candidate is pinned
+    into the REAL CP-SAT model (which must accept it: FEASIBLE/OPTIMAL) and the real post-solve stages run."""
+    import z3
+
+    from . import geom
+    from .cpsat2smt import Model
+
+    ents = cap.get("entities") or {}
+    internal = [e for e, i in ents.items() if (i.get("role") or "").startswith(("memory_", "latch", "signal_remap", "multiplier")) or e.startswith("mem_")]
+    conns = [c for c in cap.get("connections", []) if c[0] in internal and c[1] in internal and c[0] != c[1]]
+    fs = []
+    for (e1, e2) in conns[:3]:
+        m = Model(cap["proto"], use=("domain", "interval", "no_overlap_2d"))
+        x1, y1, x2, y2 = (m.byname.get(n) for n in (f"x_{e1}", f"y_{e1}", f"x_{e2}", f"y_{e2}"))
+        if None in (x1, y1, x2, y2):
+            continue
+        box = [v <= 40 for v in (x1, y1, x2, y2)]
+        r, model, secs = m.solve(box + [(x1 - x2) * (x1 - x2) + (y1 - y2) * (y1 - y2) > 100])
+        rec.count(r, secs)
+        if r != "sat":
+            continue
+        pin = {f"x_{e1}": model.eval(x1).as_long(), f"y_{e1}": model.eval(y1).as_long(), f"x_{e2}": model.eval(x2).as_long(), f"y_{e2}": model.eval(y2).as_long()}
+        tag = f"{build['tag']}/pin:{e1}~{e2}"
+        r2 = _compile(stmts, build, "full", {"stub": {"pin": pin, "pin_all": True}})
+        _note_compile(out, tag, r2)
+        if not r2.get("ok"):
+            continue  # the real solver (or a later stage) rejected the candidate outcome: no verdict
+        sess = engine.Session(stmts, r2["json"])
+        k2 = f"{task['key']}/{tag}"
+        for (kind, text) in geom.paste_problems(sess.circ)[:4]:
+            fs.append({"key": f"{k2}:{kind}", "what": text + f"  [outcome: {pin}, accepted by the real CP-SAT]", "kind": kind, "closed": True, "stub": {"pin": pin}})
+        if task.get("K"):
+            f2, _S = engine.check_history(sess, rec, k2, task["K"])
+            for f in f2:
+                f["stub"] = {"pin": pin}
+            fs += f2
+    return fs
+
+
+KINDS["layout"] = task_layout
